@@ -10,7 +10,7 @@
 //! reply: n1= n2= iso=0/1 sym=0/1 cert=0/1 ground_differs=0/1 [FAIL.*]
 //!   the two calls run on a worker thread with a wall cap of CAP_SECS (normal cost: micro- to milliseconds);
 //!   a call that does not come back is reported as `iso=hang FAIL.no_termination=…` for *that* request
-//!   cert=1            beta is injective on the labels of D1 and D2 is a permutation of beta(D1)
+//!   cert=1            beta is injective on the labels of D1 and D2 is (exactly) a permutation of beta(D1)
 //!                     => the answer must be true (FAIL.false_negative)
 //!   ground_differs=1  sizes, blank node counts or blanked-out statement multisets differ
 //!                     => the answer must be false (FAIL.false_positive_ground)
@@ -108,7 +108,7 @@ fn same_multiset(a: &[Q], b: &[Q], f: fn(&Q) -> Q) -> bool {
 fn cert_ok(beta: &BTreeMap<String, String>, d1: &[Q], d2: &[Q]) -> bool {
     let ls = labels(d1);
     let img: BTreeSet<String> = ls.iter().map(|b| beta.get(b).cloned().unwrap_or_else(|| b.clone())).collect();
-    img.len() == ls.len() && same_multiset(&d1.iter().map(|q| relabel(q, beta)).collect::<Vec<_>>(), d2, norm)
+    img.len() == ls.len() && same_multiset(&d1.iter().map(|q| relabel(q, beta)).collect::<Vec<_>>(), d2, Q::clone)
 }
 
 fn ground_differs(d1: &[Q], d2: &[Q]) -> Option<&'static str> {
@@ -290,28 +290,61 @@ enum Capped {
     Skipped,
 }
 
+type Job = (String, Vec<Q>, String, Vec<Q>);
+
+/// one long-lived worker runs the real code; a worker that does not answer in time is abandoned (it keeps
+/// spinning until the process exits) and replaced
+struct Worker {
+    tx: std::sync::mpsc::Sender<Job>,
+    rx: std::sync::mpsc::Receiver<Result<Out, String>>,
+}
+
+fn spawn_worker() -> Option<Worker> {
+    let (tx, jobs) = std::sync::mpsc::channel::<Job>();
+    let (results, rx) = std::sync::mpsc::channel();
+    std::thread::Builder::new()
+        .stack_size(16 << 20)
+        .spawn(move || {
+            for (c1, d1, c2, d2) in jobs {
+                let r = catch(std::panic::AssertUnwindSafe(|| dispatch(&c1, &d1, &c2, &d2).expect("container")));
+                if results.send(r).is_err() {
+                    break;
+                }
+            }
+        })
+        .ok()?;
+    Some(Worker { tx, rx })
+}
+
+static WORKER: std::sync::Mutex<Option<Worker>> = std::sync::Mutex::new(None);
+
 fn run_capped(c1: &str, d1: &[Q], c2: &str, d2: &[Q]) -> Capped {
     use std::sync::atomic::Ordering::SeqCst;
+    use std::sync::mpsc::RecvTimeoutError;
     if HUNG.load(SeqCst) >= MAX_HUNG {
         return Capped::Skipped;
     }
-    let (tx, rx) = std::sync::mpsc::channel();
-    let (c1, c2, d1, d2) = (c1.to_string(), c2.to_string(), d1.to_vec(), d2.to_vec());
-    let spawned = std::thread::Builder::new().stack_size(16 << 20).spawn(move || {
-        let r = catch(std::panic::AssertUnwindSafe(|| dispatch(&c1, &d1, &c2, &d2).expect("container")));
-        let _ = tx.send(r);
-    });
-    if spawned.is_err() {
-        return Capped::Panicked("cannot spawn worker thread".into());
+    let mut slot = WORKER.lock().unwrap_or_else(|e| e.into_inner());
+    if slot.is_none() {
+        *slot = spawn_worker();
     }
-    match rx.recv_timeout(std::time::Duration::from_secs(CAP_SECS)) {
+    let Some(w) = slot.as_ref() else { return Capped::Panicked("cannot spawn worker thread".into()) };
+    if w.tx.send((c1.to_string(), d1.to_vec(), c2.to_string(), d2.to_vec())).is_err() {
+        *slot = None;
+        return Capped::Panicked("worker died".into());
+    }
+    match w.rx.recv_timeout(std::time::Duration::from_secs(CAP_SECS)) {
         Ok(Ok(out)) => Capped::Done(out),
         Ok(Err(m)) => Capped::Panicked(m),
-        Err(std::sync::mpsc::RecvTimeoutError::Timeout) => {
+        Err(RecvTimeoutError::Timeout) => {
             HUNG.fetch_add(1, SeqCst);
+            *slot = None;
             Capped::Hung
         }
-        Err(std::sync::mpsc::RecvTimeoutError::Disconnected) => Capped::Panicked("worker died".into()),
+        Err(RecvTimeoutError::Disconnected) => {
+            *slot = None;
+            Capped::Panicked("worker died".into())
+        }
     }
 }
 
@@ -384,8 +417,10 @@ pub fn exec(line: &str) -> String {
     if !same_multiset(&out.a1, &d1, norm) || !same_multiset(&out.a2, &d2, norm) {
         return "skip=1 why=container_content_differs".into();
     }
-    let (d1, d2) = (out.a1, out.a2);
+    // the certificate is about the request as written (exact copy, language tags included); the containers hold
+    // the same statements up to the case of language tags (checked above), which `Term::eq/cmp/hash` ignore
     let cert = cert_ok(&beta, &d1, &d2);
+    let (d1, d2) = (out.a1, out.a2);
     let gd = ground_differs(&d1, &d2);
     let mut s = format!("n1={} n2={}", d1.len(), d2.len());
     let mut fails = vec![];
@@ -557,6 +592,14 @@ fn emit(ctx: &mut GenCtx, kind: &str, beta: &BTreeMap<String, String>, d1: &[Q],
     if other_terms(c1) != other_terms(c2) {
         ctx.stats.bump("containers.two_term_types");
     }
+    // which clause of the property (if any) fixes the answer of this pair
+    ctx.stats.bump(if cert_ok(beta, d1, d2) {
+        "pair.answer.must_be_true(certified_relabelling)"
+    } else if ground_differs(d1, d2).is_some() {
+        "pair.answer.must_be_false(size|bcount|ground)"
+    } else {
+        "pair.answer.refinement_decides(model_vs_impl_only)"
+    });
     let n = d1.len().max(d2.len());
     ctx.stats.bump(&format!("pair.statements.{}", bucket(n)));
     ctx.stats.bump(&format!("pair.labels.{}", bucket(labels(d1).len().max(labels(d2).len()))));
@@ -778,7 +821,7 @@ fn sparse(r: &mut Rng, lo: usize, n: usize) -> Vec<Q> {
 
 /// shapes with 6-40 (thorough: up to 64) blank nodes: long refinement (chains), many blank-equal statements around
 /// one node (stars), regular structures, components in two copies, one blank graph name shared by many statements
-fn big_shape(r: &mut Rng, kind: &str, n: usize) -> Vec<Q> {
+fn big_shape(r: &mut Rng, kind: &str, n: usize, fill: bool) -> Vec<Q> {
     let i = |s: &str| T::Iri(s.to_string());
     let tr = |a: T, b: T, c: T| T::Triple(Box::new([a, b, c]));
     let q = |s: T, p: T, o: T, g: Option<T>| Q { s, p, o, g };
@@ -828,7 +871,7 @@ fn big_shape(r: &mut Rng, kind: &str, n: usize) -> Vec<Q> {
         // one node made special: symmetric shapes then need about n rounds
         d.push(q(lbl(0), i("x:q"), T::Lit("anchor".into(), "http://www.w3.org/2001/XMLSchema#string".into()), None));
     }
-    if r.chance(1, 8) {
+    if fill {
         // every node mentioned by many more statements (>= 300 in all)
         let mut k = 0;
         while d.len() < 300 {
@@ -890,7 +933,9 @@ pub fn generate(ctx: &mut GenCtx) {
     for k in 0..nbig {
         let kind = BIG_KINDS[k % BIG_KINDS.len()];
         let n = 6 + ctx.rng.below(if ctx.thorough { 59 } else { 35 });
-        let d = big_shape(&mut ctx.rng, kind, n);
+        // the model's insertion sort makes these cost ~0.1 s each: few in the quick tier
+        let fill = k % (if ctx.thorough { 16 } else { 32 }) == 3;
+        let d = big_shape(&mut ctx.rng, kind, n, fill);
         let graph_only = d.iter().all(|q| q.g.is_none());
         ctx.stats.bump(&format!("big.kind.{}", kind));
         ctx.stats.bump(&format!("big.labels.{}", bucket(labels(&d).len())));
